@@ -197,9 +197,9 @@ Fixpoint decode_trace (fuel : nat) (zs : list Z) : option (list event) :=
 
 Definition str_badtrace : bytes := [98;97;100;116;114;97;99;101]. (* "badtrace" *)
 
-(* correspondence entry point.  kinds 1-4: an observed trace (same encoding, different scenario families on the Go
+(* correspondence entry point for kinds 1-5 (run_case_C02 itself is in Model/Datadog.v, which adds kind 6).  kinds 1-4: an observed trace (same encoding, different scenario families on the Go
    side); kind 5: bytes sent by an upstream, read by the fluentdforward connection's ReadChunkAck *)
-Definition run_case_C02 (c : case) : bytes :=
+Definition run_case_C02_trace (c : case) : bytes :=
   if c_kind c =? 5 then render_ack (parse_ack (ack_case_payload c)) else
   match c_zargs c with
   | cap :: maxage :: bug :: rest =>
